@@ -291,8 +291,9 @@ def _is_empty_ctor(t, depth=0, facts=None):
     'C20': 'replicas with the same content compare equal only if equality looks at every field; keys of hash tables (clocks, dots) need Hash to agree with Eq',
     'C19': 'round-trip equality is judged by the same PartialEq impls',
     'C02': 'the merge laws are stated up to ==',
-}, **{p_: TYPE_PROP_WHY for ps_ in TYPE_PROPS.values() for p_ in ps_ if p_ not in ('C20', 'C19', 'C02')}), floor=16,
-    inst_filter={p_: (lambda i, p_=p_: p_ in type_props(i) or i in ('floor', 'anchor', 'internal')) for ps_ in TYPE_PROPS.values() for p_ in ps_})
+}, **{p_: TYPE_PROP_WHY for ps_ in TYPE_PROPS.values() for p_ in ps_ if p_ not in ('C20', 'C19', 'C02')}), floor=19,
+    inst_filter={p_: (lambda i, p_=p_: p_ in type_props(i) or i in ('floor', 'anchor', 'internal') or (p_ == 'C12' and i.startswith('dot::') and '/from' in i))
+                 for ps_ in TYPE_PROPS.values() for p_ in ps_})
 def type_impls(ctx):
     """Hand-written PartialEq / Hash / Default / Clone impls of the crate's state, op and clock types behave like the derived
     ones: eq compares every field (true iff all are equal), hash feeds every field eq compares, default builds the empty
@@ -368,6 +369,18 @@ def type_impls(ctx):
             r = interp(facts, b).ret
             ctx.check(_is_empty_ctor(r, 0, facts), short + '/default', b, 'the default value is the empty one',
                       'Default::default() of %s is %s, expected every field empty / default' % (short, fmt(drop_lv(r), 5)))
+        elif tr == 'From' and b0.name == 'from' and b0.impl_self in (DOT, 'crdts::dot::OrdDot'):
+            # Dot <-> OrdDot <-> (actor, counter): the rules read these conversions as the identity on (actor, counter)
+            ctx.analysed.add(b0.key)
+            r = drop_lv(normal(facts, interp(facts, b).ret))
+            ok = False
+            if r[0] == 'agg' and dict(r[3]).keys() >= {'actor', 'counter'}:
+                a, c = versionless(dict(r[3])['actor']), versionless(dict(r[3])['counter'])
+                ok = (a, c) in ((('field', ('param', 1), 'actor'), ('field', ('param', 1), 'counter')),
+                                (('field', ('param', 1), '0'), ('field', ('param', 1), '1')))
+            src_ty = (b.locals[1]['ty'].get('s') or '?')
+            ctx.check(ok, '%s/from<%s>' % (short, src_ty.split('<')[0].split('::')[-1] or 'tuple'), b, 'actor and counter carried over unchanged',
+                      '%s::from(%s) is %s, expected the same actor and counter' % (short, src_ty, fmt(r, 5)))
         elif tr == 'Clone' and b0.name == 'clone':
             ctx.analysed.add(b0.key)
             r = versionless(interp(facts, b).ret)
@@ -381,7 +394,19 @@ def type_impls(ctx):
     'C04': 'merge drops or keeps members by `other.clock >= clock`',
     'C05': 'same for Map entries',
     'C14': 'Identifier order must be one total order whichever operator is used',
-}, floor=4)
+    'C06': 'MVReg::apply and MVReg::merge keep or evict values by `>` / `<` on their clocks',
+    'C08': 'the decision to remember an overtaking remove compares clocks',
+    'C02': 'merge decisions on both sides must use one and the same order',
+    'C03': 'same decisions as op delivery',
+}, floor=4, inst_filter={'C14': lambda i: i.startswith('identifier') or i in ('floor', 'anchor', 'internal'),
+                         'C06': lambda i: i.startswith('vclock') or i in ('floor', 'anchor', 'internal'),
+                         'C08': lambda i: i.startswith('vclock') or i in ('floor', 'anchor', 'internal'),
+                         'C04': lambda i: i.startswith('vclock') or i in ('floor', 'anchor', 'internal'),
+                         'C05': lambda i: i.startswith('vclock') or i in ('floor', 'anchor', 'internal'),
+                         'C02': lambda i: i.startswith('vclock') or i in ('floor', 'anchor', 'internal'),
+                         'C03': lambda i: i.startswith('vclock') or i in ('floor', 'anchor', 'internal'),
+                         'C09': lambda i: i.startswith('vclock') or i in ('floor', 'anchor', 'internal'),
+                         'C10': lambda i: i.startswith(('vclock', 'dot')) or i in ('floor', 'anchor', 'internal')})
 def cmp_provided(ctx):
     """Hand-written PartialOrd / Ord impls of crate types define the order in ONE place (partial_cmp / cmp): a provided
     operator (lt, le, gt, ge, max, min, clamp) that is overridden must be evaluable from that one place and agree with it."""
